@@ -33,9 +33,12 @@ impl HttpRequest {
     pub async fn read_from(socket: Reader<'_>) -> Result<Self, Error> {
         let buf = read_line(socket).await?;
         let buf = buf.trim_end();
-        let a: Vec<&str> = buf.split_ascii_whitespace().collect();
+        // exactly "method SP target SP version": any other blank or control character inside a
+        // field would be dropped or re-split and change the request
+        let a: Vec<&str> = buf.split(' ').collect();
         trace!("request={}", buf);
-        let mut ret = if a.len() == 3 && a[2].starts_with("HTTP/") {
+        let clean = |s: &&str| !s.is_empty() && !s.chars().any(|c| c.is_ascii_control());
+        let mut ret = if a.len() == 3 && a[2].starts_with("HTTP/") && a.iter().all(clean) {
             let method = a[0].into();
             let resource = a[1].into();
             let version = a[2].into();
